@@ -4,7 +4,7 @@
    holds for every function from strings to parse results. *)
 From Coq Require Import List ZArith NArith Bool String.
 From Verif Require Import gen.LockProgs model.BackendCfg model.BackendLocks corr.Run_C13
-  proofs.BackendCfg_proofs proofs.BackendLocks_proofs.
+  proofs.BackendCfg_proofs proofs.BackendCfg_owner proofs.BackendLocks_proofs.
 Import ListNotations.
 Local Open Scope string_scope.
 
@@ -80,6 +80,37 @@ Theorem C13_etcd_lists_nonempty : forall up evs h l, es_tab (run_etcd up evs) h 
 Proof. exact etcd_lists_nonempty. Qed.
 Theorem C13_etcd_trace : forall up ops, P_C13 (mtrace_etcd up einit [] ops) = true.
 Proof. exact etcd_trace. Qed.
+
+(* ---- second clause of the trace predicate: an accepted URL belongs to its backend ------------
+   (corr/Run_C13.v, Section Owner: the configured URL of the backend an answer names,
+   slash-terminated, is a prefix of the looked-up URL, slash-terminated - the lookup
+   stops at a path-segment boundary; checked on the running and on the fresh answer).
+   [slash_stable up] is the one assumption on the url.Parse oracle: String() of a URL
+   whose text ends in "/" ends in "/" (used only where a standard port is dropped).
+
+   Static storage: every history of new-style configurations (the static storage
+   appends the "/" itself). *)
+Theorem C13_static_owner_trace_partial : forall up, slash_stable up -> forall ops,
+  Forall new_style (flat_map op_config ops) -> owner_static up [] (mtrace_static up None ops) = true.
+Proof. exact owner_static_trace. Qed.
+
+(* Etcd storage.  Full statement: for every history of events and lookups.
+   PARTIAL: proved for histories in which the URL of every value written ends in "/".
+   What is missing is exactly the rest: the etcd storage keeps the URL as written
+   (BackendInformationEtcd.CheckValid appends nothing), so a value
+   {"url": "https://cloud.example/nextcloud"} - the form of the example in
+   server.conf.in - also accepts https://cloud.example/nextcloud-test/...: refuted
+   by C13_etcd_owner_refuted (open finding C13/etcd/url-without-trailing-slash). *)
+Theorem C13_etcd_owner_trace_partial : forall up, slash_stable up -> forall ops,
+  Forall put_slashed ops -> owner_etcd up [] (mtrace_etcd up einit [] ops) = true.
+Proof. exact owner_etcd_trace. Qed.
+
+Theorem C13_etcd_owner_refuted : exists up ops,
+  slash_stable up /\ P_C13 (mtrace_etcd up einit [] ops) = true /\
+  owner_etcd up [] (mtrace_etcd up einit [] ops) = false.
+Proof.
+  exists own_up, own_ops. destruct etcd_owner_refuted as (H1 & _ & H2 & H3). auto.
+Qed.
 
 (* ---- lookups and reloads running concurrently always complete ------------------------------
    General lemma: threads running non-reentrant lock programs on one RWMutex
@@ -174,6 +205,27 @@ Example C13_etcd_trace_nonvacuous :
   [VOk; VAns (ASome (1%N, 1%N, 0%Z, 0%Z, 0%Z, false)) (ASome (1%N, 1%N, 0%Z, 0%Z, 0%Z, false));
    VOk; VAns ANone ANone; VAns (ASome (1%N, 2%N, 0%Z, 0%Z, 0%Z, false)) (ASome (1%N, 2%N, 0%Z, 0%Z, 0%Z, false))].
 Proof. vm_compute. reflexivity. Qed.
+(* the second clause on real work: two backends whose paths share a string prefix but not a
+   path prefix, listed in both orders; every URL is accepted for its own backend only *)
+Example C13_owner_nonvacuous :
+  Forall new_style (flat_map op_config seg_ops) /\
+  map snd (mtrace_static seg_up None seg_ops) =
+    [VOk; VAns (ASome (2%N, 2%N, 0%Z, 0%Z, 0%Z, false)) (ASome (2%N, 2%N, 0%Z, 0%Z, 0%Z, false));
+     VAns (ASome (1%N, 1%N, 0%Z, 0%Z, 0%Z, false)) (ASome (1%N, 1%N, 0%Z, 0%Z, 0%Z, false));
+     VAns ANone ANone; VOk;
+     VAns (ASome (2%N, 2%N, 0%Z, 0%Z, 0%Z, false)) (ASome (2%N, 2%N, 0%Z, 0%Z, 0%Z, false));
+     VAns (ASome (1%N, 1%N, 0%Z, 0%Z, 0%Z, false)) (ASome (1%N, 1%N, 0%Z, 0%Z, 0%Z, false))] /\
+  owner_static seg_up [] (mtrace_static seg_up None seg_ops) = true.
+Proof. exact seg_example. Qed.
+(* the etcd witness: accepted for key 1 although the URL is not below key 1's URL; with the
+   trailing slash written the same lookup is refused *)
+Example C13_etcd_owner_witness :
+  map snd (mtrace_etcd own_up einit [] own_ops) =
+    [VOk; VAns (ASome (1%N, 1%N, 0%Z, 0%Z, 0%Z, false)) (ASome (1%N, 1%N, 0%Z, 0%Z, 0%Z, false))] /\
+  map snd (mtrace_etcd own_up einit []
+    [OEvent (EPut 1 (Some (mkE "https://cloud.example/nextcloud/" 1 0 0 0)));
+     OProbe "https://cloud.example/nextcloud-test/ocs/v2.php"]) = [VOk; VAns ANone ANone].
+Proof. split; [exact (proj1 (proj2 etcd_owner_refuted))|exact etcd_owner_slashed_example]. Qed.
 (* the lock theorem applies to real work: 3 lookups and 2 reloads complete under this schedule *)
 Example C13_locks_nonvacuous :
   all_done (run [0;1;3;2;0;1;3;3;4;2;4;4;2;2] (init [[RLock; RUnlock]; [RLock; RUnlock]; [RLock; RUnlock]; [Lock; Unlock]; [Lock; Unlock]])) = true.
@@ -193,6 +245,9 @@ Print Assumptions C13_etcd_accepted_only_if_live.
 Print Assumptions C13_etcd_deleted_refused.
 Print Assumptions C13_etcd_lists_nonempty.
 Print Assumptions C13_etcd_trace.
+Print Assumptions C13_static_owner_trace_partial.
+Print Assumptions C13_etcd_owner_trace_partial.
+Print Assumptions C13_etcd_owner_refuted.
 Print Assumptions C13_non_reentrant_progs_complete.
 Print Assumptions C13_generated_progs_non_reentrant.
 Print Assumptions C13_generated_entry_points.
